@@ -41,6 +41,9 @@ def gen_histories(tier: str, seed: int) -> list[dict[str, Any]]:
         dict(F=2, I=3, accum=2, in_hook=True),
         dict(F='int_1_2', I='int_2_1', accum=1, in_hook=True,
              damping='damp_lin'),
+        # a long-running job: the step counter starts far from zero
+        dict(F=1, I=2, accum=1, in_hook=True, steps0=60),
+        dict(F=2, I=3, accum=1, in_hook=False, steps0=1002),
     ]
     out = []
     depth = 6 if tier == 'quick' else 8
